@@ -2,6 +2,7 @@ import NauyacaVerif.Gen.Fn.PumpResponse
 import NauyacaVerif.Gen.Fn.ResumeWriting
 import NauyacaVerif.Gen.Fn.PauseWriting
 import NauyacaVerif.Gen.Fn.ConnectionLost
+import NauyacaVerif.Gen.Fn.SendResponse
 import NauyacaVerif.Srv.FlowPy
 import NauyacaVerif.Srv.FlowProof
 set_option linter.unusedSimpArgs false
@@ -127,6 +128,34 @@ theorem pause_eq (s : FSt) : (pauseWriting s).1 = fstep s .pause := rfl
 theorem lost_eq (s : FSt) : (connectionLost s).1 = fstep s .lost := by
   obtain ⟨started, unsent, paused, budget, out, closed, lost, timer, all, done⟩ := s
   cases timer <;> simp [connectionLost, fstep, pyLost, pyCancel]
+
+/-- `_send_response(r)` IS the model's `send (pieces r)` event: ignored when a response was already sent or the peer is gone,
+    otherwise the timer is cancelled, the rendered header and the `WRITE_CHUNK_SIZE` pieces of the body are queued and pumped -/
+theorem send_eq (r : Resp) (s : FSt) (hi : s.started = false → s.closed = false) :
+    (sendResponse r s).1 = fstep s (.send (pieces r)) := by
+  obtain ⟨started, unsent, paused, budget, out, closed, lost, timer, all, done⟩ := s
+  simp only at hi
+  unfold sendResponse
+  cases started with
+  | true => simp [fstep]
+  | false =>
+    have hcl : closed = false := hi rfl
+    subst hcl
+    cases lost with
+    | true => simp [fstep]
+    | false =>
+      cases timer with
+      | none =>
+        simp only [fstep, pieces, pySetUnsent, pySetUnsentExtend, pyCancel, Bool.not_false, Bool.not_true, Bool.or_self, Bool.false_eq_true, if_false,
+          Option.isSome_none, List.nil_append, List.singleton_append]
+        rw [pump_eq _ rfl (by intro h; simp at h)]
+      | some t =>
+        simp only [fstep, pieces, pySetUnsent, pySetUnsentExtend, pyCancel, Bool.not_false, Bool.not_true, Bool.or_self, Bool.false_eq_true, if_false,
+          Option.isSome_some, if_true, List.nil_append, List.singleton_append]
+        rw [pump_eq _ rfl (by intro h; simp at h)]
+
+theorem send_reachable (r : Resp) (evs : List FEv) : (sendResponse r (frun evs)).1 = fstep (frun evs) (.send (pieces r)) :=
+  send_eq r _ (fun h => ((frun_inv evs).idle h).2.2.2)
 
 /-- on every reachable state of the pump model (any sequence of sends, limits, pauses, resumes, losses, ticks) the translated
     `resume_writing` does what the model's `resume` does -/
